@@ -29,7 +29,10 @@ def codecItem (S : Schema) (name : String) (fuel : Nat) (ty : Option Ty) (j : Js
                      ("dyn_bytes", J.natsToJson (pack (Cpp.dynEnc t v))),
                      ("byte_granular", Json.bool (Cpp.ByteGranular t)), ("widths", Json.bool (Cpp.Widths t))]
     | none => pure ()
-    out := out ++ [("py_enc", exceptJson J.natsToJson (pyEncode S fuel name v))]
+    -- the transliterated `_Buffer` grows a byte list bit by bit (quadratic): callers that only need the specification and
+    -- the C++ models (very long arrays) say so
+    if (j.getObjVal? "no_py").toOption.isNone then
+      out := out ++ [("py_enc", exceptJson J.natsToJson (pyEncode S fuel name v))]
   | .error _ => pure ()
   match j.getObjVal? "bytes" with
   | .ok bj =>
